@@ -107,6 +107,25 @@ def diff_tree(text):
     return nodes
 
 
+def diff_tree_full(text):
+    """Like diff_tree, with the node's address and the address of its canonical diff node:
+    [(indent, kind, subjects, {categories}, addr, canonical_addr)]."""
+    nodes = []
+    lines = text.splitlines()
+    for k, l in enumerate(lines):
+        m = _NODE.match(l)
+        if not m or k + 4 >= len(lines) or lines[k + 1].strip() != "{":
+            continue
+        c = lines[k + 2].strip()
+        if not c.startswith("category:"):
+            continue
+        a, ca = lines[k + 3].strip(), lines[k + 4].strip()
+        addr = a[2:].strip() if a.startswith("@:") else None
+        canon = ca[len("@-canonical:"):].strip() if ca.startswith("@-canonical:") else None
+        nodes.append((len(m.group(1)), m.group(2), m.group(3), set(x.strip() for x in c[9:].split("|")), addr, canon))
+    return nodes
+
+
 def only_harmless_categories_in_tree(cx, b1, b2, opts=()):
     """True when the tool's own diff tree carries at least one harmless category and not a single category outside the
     harmless set (no SIZE_OR_OFFSET / VIRTUAL_MEMBER / FN_PARM_ADD_REMOVE / SUPPRESSED / PRIVATE_TYPE ... anywhere), and
